@@ -119,8 +119,8 @@ static void prop_truthful(Tape &t, Ctx &c) {
         Mat B;
         if (amg_class) {
             RtAmg P0(*Acrs, pprm); levels = level_info(P0).levels;
-            // known finding F-emin: a degenerate aggregate / inverted non-positive filtered diagonal makes the hierarchy NaN or arbitrarily large
-            if (cfg.coars == EMIN) { std::string why = emin_degenerate(P0, cfg.eps_strong); if (!why.empty()) { c.label("emin:degenerate"); c.desc << " | F-emin: " << why; if (c.known("F-emin")) return; } }
+            // degenerate aggregate / non-positive filtered diagonal (former finding F-emin, fixed in /repo by a58f297): labelled, asserted
+            if (cfg.coars == EMIN) { std::string why = emin_degenerate(P0, cfg.eps_strong); if (!why.empty()) { c.label("emin:degenerate"); c.desc << " | emin degenerate: " << why; } }
             B = extract_operator(P0, n);
             if (all_finite(B)) probe(P0, B);
         } else { amgcl::runtime::preconditioner<Backend> P0(*Acrs, pprm); B = extract_operator(P0, n); if (all_finite(B)) probe(P0, B); }
@@ -258,7 +258,7 @@ static void prop_richardson(Tape &t, Ctx &c) {
     try { step = make(1, 0.0); } catch (const std::runtime_error &e) { c.label(std::string("setup-threw:") + e.what()); return; }
     LevelInfo li = level_info(step->precond());
     c.label("levels=" + std::to_string(std::min<size_t>(li.levels, 5)));
-    if (cfg.coars == EMIN) { std::string why = emin_degenerate(step->precond(), cfg.eps_strong); if (!why.empty()) { c.desc << " | F-emin: " << why; if (c.known("F-emin")) return; } }
+    if (cfg.coars == EMIN) { std::string why = emin_degenerate(step->precond(), cfg.eps_strong); if (!why.empty()) { c.label("emin:degenerate"); c.desc << " | emin degenerate: " << why; } }
 
     Mat B = extract_operator(step->precond(), n);
     VF_REQUIRE(all_finite(B), "cycle operator has non-finite entries");
